@@ -18,6 +18,9 @@ pub(crate) use sharding::{ShardInfo, ShardingError};
 #[cfg(scylla_verif)]
 #[allow(missing_docs)]
 pub use sharding::verif_hooks as verif_sharding;
+#[cfg(scylla_verif)]
+#[allow(missing_docs)]
+pub use partitioner::verif_hooks as verif_partitioner;
 
 #[derive(PartialEq, Eq, PartialOrd, Ord, Clone, Copy, Debug)]
 
